@@ -32,6 +32,23 @@ def ho(prop, q=40, t=600, shards_q=4, shards_t=16, flavors=None):
 
 ASYNC_ALL = "tokio-mt,tokio-ct,async-std,thread-per-task"
 
+
+def tsan(engine, n=30, shards=4, extra=()):
+    """the same workload under ThreadSanitizer (thorough tier only; nightly, -Zbuild-std)"""
+    return dict(engine=engine, sanitizer="tsan", tiers=["thorough"], shards=dict(thorough=shards), args=["--thorough-n", str(n)] + list(extra), timeout=dict(thorough=3600))
+
+
+def asan(engine, n=None, shards=4, extra=()):
+    args = (["--thorough-n", str(n)] if n else []) + list(extra)
+    return dict(engine=engine, sanitizer="asan", tiers=["thorough"], shards=dict(thorough=shards), args=args, timeout=dict(thorough=3600))
+
+
+def miri(*scenarios, seeds=4):
+    return dict(engine="miri", tiers=["thorough"], scenarios=list(scenarios), seeds=seeds, timeout=2400)
+
+
+SAN = " || thorough tier: the same workloads under ThreadSanitizer / AddressSanitizer builds of the harness and small scenarios under Miri; every report that survives tsan.supp counts"
+
 PLAN = {
     "C01": dict(
         stages=[ls("C01"), ho("C01")],
@@ -44,8 +61,8 @@ PLAN = {
         assumptions=["equalities are decided on histories whose true sum of charges fits in i64 (beyond that an i64 total has no defined answer); costs near i64::MAX are used for survival and oversize clauses"],
     ),
     "C02": dict(
-        stages=[ho("C02", q=60), ls("C02"), ga()],
-        rule=HO + " || " + LS + " || " + GA,
+        stages=[ho("C02", q=60), ls("C02"), ga(), tsan("hostile"), asan("hostile", n=30), miri("store")],
+        rule=HO + " || " + LS + " || " + GA + SAN,
         clauses=["R1 returned value carries the looked-up key", "R2 written by an insert that returned true or an in-place write, not from the future",
                  "R3a no value written before a remove that was applied (later wait() Ok, no clear overlapping)", "R3a' removal of an observably resident value is immediate",
                  "R3b no value written before a clear() that returned before the look-up began", "R4 an update still resident at the end is returned by every look-up after it",
@@ -76,8 +93,8 @@ PLAN = {
         assumptions=["ticks are delivered (never skipped) at phase + n*interval of the virtual clock"],
     ),
     "C06": dict(
-        stages=[ho("C06", q=60), ls("C06"), ga()],
-        rule=GA + " || " + HO + "; histories in which a call returned Err are excluded (the statement's exemption) and counted",
+        stages=[ho("C06", q=60), ls("C06"), ga(), tsan("hostile")],
+        rule=GA + " || " + HO + SAN + "; histories in which a call returned Err are excluded (the statement's exemption) and counted",
         clauses=["keys(store) == keys(policy) at the quiescent end", "len() == number of resident entries", "same invariant after every lockstep step"],
         minimum=dict(quick=dict(ho_c06_evaluations=60, ho_evictions_and_expiries=2000, ls_histories=200)),
         assumptions=["quiescent = clients joined, wait() Ok, tick handled, wait() Ok, hook counters stable across the snapshot"],
@@ -97,8 +114,8 @@ PLAN = {
         assumptions=["policy worker drained (kept == applied) before each add, so estimates are stable while the oracle reads them"],
     ),
     "C08": dict(
-        stages=[ho("C08", q=60), ls("C08"), ga()],
-        rule=HO + " || " + LS + " || " + GA,
+        stages=[ho("C08", q=60), ls("C08"), ga(), tsan("hostile")],
+        rule=HO + " || " + LS + " || " + GA + SAN,
         clauses=["every accepted value: exactly one of {resident, on_exit, on_evict, on_reject, overwritten in place}", "none of them only if dropped inside a clear()/close() call",
                  "never two", "no look-up returns a value after its callback", "no value leaked after the cache and its workers are gone", "lockstep: callback kind matches the cause"],
         minimum=dict(quick=dict(ho_c08_values_accounted=20000, ho_callbacks=10000, ls_histories=200)),
@@ -113,7 +130,7 @@ PLAN = {
         assumptions=[],
     ),
     "C10": dict(
-        stages=[ho("C10", q=60), dict(engine="waitrace", shards=dict(quick=4, thorough=16), args=["--quick-n", "240", "--thorough-n", "4000"])],
+        stages=[ho("C10", q=60), dict(engine="waitrace", shards=dict(quick=4, thorough=16), args=["--quick-n", "240", "--thorough-n", "4000"]), tsan("hostile"), tsan("waitrace", n=60, shards=2, extra=["--flavors", "sync"]), miri("lifecycle")],
         rule=HO + " (barrier mode: disjoint keys per thread, ample capacity, each batch followed by wait() and an immediate check of the thread's own keys) || "
              "termination: waiters vs close / clear / both, readers and writers on one shard; every flavour; verdict from state (worker exit counters, thread states), never from a timeout",
         clauses=["after wait() Ok: a key written exactly once since the previous barrier holds that value and is charged / is gone and uncharged", "keys written several times: store and policy agree",
@@ -123,15 +140,15 @@ PLAN = {
         assumptions=["several writes to one key between two barriers are applied out of program order by design (updates at once, queued removes and first inserts later)"],
     ),
     "C11": dict(
-        stages=[ls("C11", q=400), ho("C11", q=60), ga()],
-        rule=LS + " || " + HO + " || " + GA,
+        stages=[ls("C11", q=400), ho("C11", q=60), ga(), tsan("hostile")],
+        rule=LS + " || " + HO + " || " + GA + SAN,
         clauses=["after clear(): every key absent, len 0, used 0, counters zero, histogram empty", "afterwards exactly the fresh-cache model, incl. keys re-used with another TTL or none across their old expiry seconds",
                  "concurrent: nothing written before a completed clear() is returned afterwards; barrier clauses for inserts begun after clear() returned"],
         minimum=dict(quick=dict(ls_clears=1000, ho_op_clear=300)),
         assumptions=[],
     ),
     "C12": dict(
-        stages=[dict(engine="close", shards=dict(quick=4, thorough=16), args=["--quick-n", "480", "--thorough-n", "8000"])],
+        stages=[dict(engine="close", shards=dict(quick=4, thorough=16), args=["--quick-n", "480", "--thorough-n", "8000"]), miri("lifecycle"), tsan("close", n=120, shards=2, extra=["--flavors", "sync"])],
         rule="scenarios x flavours (sync, tokio multi-thread, tokio current-thread, async-std, thread-per-task): close idle / after a history / 2-8 concurrent closers / "
              "try_* + wait + clear + get_ttl racing the close / drop without close / close with a pending buffer; distinct by scenario description",
         clauses=["no panic, no hang (state-based)", "after a close() returned Ok: insert false, look-ups None, remove/clear/wait/close Ok, no effect on the cache", "both workers exit (guard counters); OS thread count back to baseline (sync); spawned tasks finished (async)",
@@ -140,7 +157,7 @@ PLAN = {
         assumptions=[],
     ),
     "C13": dict(
-        stages=[dict(engine="sketch", shards=dict(quick=4, thorough=16))],
+        stages=[dict(engine="sketch", shards=dict(quick=4, thorough=16)), asan("sketch", shards=4), miri("components")],
         rule="one case = one random sequence of records / clears on TinyLFU (3 of 4 cases) or on CountMinSketch + CountMinRow (1 of 4) for one num_counters "
              "(every width 1..70 in turn, plus 100..65536) and one hash pattern (uniform, few distinct, only-high, only-low, middle bits, 0/u64::MAX, sequential); "
              "distinct by (num_counters, pattern, kind, rng state)",
@@ -152,7 +169,7 @@ PLAN = {
         assumptions=["facade delegates 1:1 to the crate-private types"],
     ),
     "C14": dict(
-        stages=[dict(engine="bloom", shards=dict(quick=4, thorough=16))],
+        stages=[dict(engine="bloom", shards=dict(quick=4, thorough=16)), asan("bloom", shards=4), miri("components")],
         rule="one case = one filter (capacity in {1..10^5} x target rate {0.05,0.01,0.001} x added set {uniform, only-high-bits, only-low-bits, sequential}), filled to capacity; "
              "distinct by (capacity, rate, set kind, rng state)",
         clauses=["every added hash present right after its add", "all hashes added so far present at doubling checkpoints and at the end",
@@ -169,7 +186,7 @@ PLAN = {
         assumptions=["estimates are read through the hook between two stamps of the logical clock; a check is skipped when an Applied/Clear event falls between them"],
     ),
     "C16": dict(
-        stages=[ls("C16", q=400)],
+        stages=[ls("C16", q=400), dict(engine="types", shards=dict(quick=1, thorough=4))],
         rule=LS + "; explicit costs 1..9, 2^31, 2^40, 2^62, i64::MAX and neighbours, max_cost +-1; Coster valuation when the cost is 0; ignore_internal_cost both ways",
         clauses=["per-key charge in the policy == explicit cost (or Coster value when 0) + item_size unless ignored", "updates re-charge", "Item.cost in on_evict / on_reject == charge", "cost metrics move by the same amounts (C17 clauses)"],
         minimum=dict(quick=dict(ls_histories=300, ls_updates=2000)),
